@@ -47,7 +47,7 @@ mutual
       match skipWs inp with
       | [] => none
       | c :: rest =>
-        if c = 0x2F then some (.name (spanReg rest).1, (spanReg rest).2)
+        if c = 0x2F then some (.name (unescName (spanReg rest).1), (spanReg rest).2)
         else if c = 0x28 then
           match readLit 0 rest with
           | some (s, r) => some (.str s, r)
@@ -74,7 +74,8 @@ mutual
             | none => some (.num t, r)
           else if t = kTrue then some (.bool true, r)
           else if t = kFalse then some (.bool false, r)
-          else some (.num t, r)
+          else if isNumTok t then some (.num t, r)
+          else none            -- `NaN`, `Inf`, operators … are not objects
         else none
   def parseList : Nat → Bytes → Option (List Val × Bytes)
     | 0, _ => none
@@ -104,7 +105,7 @@ mutual
           match parseVal f (spanReg rest).2 with
           | some (v, r) =>
             match parseKvs f r with
-            | some (kvs, r') => some (((spanReg rest).1, v) :: kvs, r')
+            | some (kvs, r') => some ((unescName (spanReg rest).1, v) :: kvs, r')
             | none => none
           | none => none
         else none
@@ -160,6 +161,51 @@ mutual
     | [] => []
     | (k, v) :: r => asc (Rd.hexOf k) ++ 0x3D :: show' v ++ 0x20 :: showKvs r
 end
+
+/-! ### stream objects -/
+
+def dropPrefix : Bytes → Bytes → Option Bytes
+  | [], inp => some inp
+  | _ :: _, [] => none
+  | p :: ps, c :: r => if p = c then dropPrefix ps r else none
+
+/-- the direct, non-negative integer `/Length` of a parsed stream dictionary -/
+def lookupLen (kvs : List (Bytes × Val)) : Option Nat :=
+  match kvs.find? (fun e => e.1 == kLength) with
+  | some (_, .num t) => if isNatTok t then some (natOf t) else none
+  | _ => none
+
+/-- after the dictionary: `stream`, one end-of-line marker (LF or CR LF), exactly `len` bytes, an
+optional end-of-line marker, `endstream` (7.3.8.1). Returns the bytes and the input after `endstream`. -/
+def readStream (len : Nat) (inp : Bytes) : Option (Bytes × Bytes) :=
+  match dropPrefix (asc "stream") (skipWs inp) with
+  | none => none
+  | some r =>
+    let r1 := match r with
+      | 0x0D :: 0x0A :: r' => some r'
+      | 0x0A :: r' => some r'
+      | _ => none
+    match r1 with
+    | none => none
+    | some r1 =>
+      if r1.length < len then none else
+      let body := r1.take len
+      let r2 := r1.drop len
+      let r3 := match r2 with
+        | 0x0D :: 0x0A :: r' => r'
+        | 0x0A :: r' => r'
+        | 0x0D :: r' => r'
+        | r' => r'
+      (dropPrefix (asc "endstream") r3).map (fun rest => (body, rest))
+
+/-- a stream object body: dictionary, then the stream data delimited by `/Length` -/
+def parseStreamObj (f : Nat) (inp : Bytes) : Option (List (Bytes × Val) × Bytes × Bytes) :=
+  match parseVal f inp with
+  | some (.dict kvs, r) =>
+    match lookupLen kvs with
+    | some len => (readStream len r).map (fun (body, rest) => (kvs, body, rest))
+    | none => none
+  | _ => none
 
 /-! ### shape of printed numbers -/
 
